@@ -28,7 +28,7 @@ import (
 )
 
 type op struct {
-	Op     string   `json:"op"`
+	Op     string   `json:"op"` // Init Child With SetLevel EnableDebug Derive | Global (zap.ReplaceGlobals)
 	Ctx    int      `json:"ctx"`
 	Fields []uint64 `json:"fields,omitempty"`
 	Level  int      `json:"level"`
@@ -99,8 +99,27 @@ var levels = []zapcore.Level{zapcore.DebugLevel, zapcore.InfoLevel, zapcore.Warn
 
 type otherKey struct{ n int }
 
-func installGlobal(g globalSpec) *observer.ObservedLogs {
+// sinks collects the captured entries of every in-memory core installed during one case: a
+// logger derived before zap.ReplaceGlobals keeps writing to the core it was derived from.
+type sinks struct{ all []*observer.ObservedLogs }
+
+func (s *sinks) TakeAll() []observer.LoggedEntry {
+	var out []observer.LoggedEntry
+	for _, l := range s.all {
+		out = append(out, l.TakeAll()...)
+	}
+	return out
+}
+
+func installGlobal(g globalSpec) *sinks {
+	s := &sinks{}
+	s.install(g)
+	return s
+}
+
+func (s *sinks) install(g globalSpec) {
 	core, logs := observer.New(zapcore.Level(g.Level))
+	s.all = append(s.all, logs)
 	lg := zap.New(core)
 	if len(g.Fields) > 0 {
 		lg = lg.With(zfields(g.Fields)...)
@@ -109,10 +128,9 @@ func installGlobal(g globalSpec) *observer.ObservedLogs {
 		lg = log.CustomLevelLogger(lg, zapcore.Level(*g.Wrap))
 	}
 	zap.ReplaceGlobals(lg)
-	return logs
 }
 
-func probe(ctx context.Context, logs *observer.ObservedLogs) cobs {
+func probe(ctx context.Context, logs *sinks) cobs {
 	logs.TakeAll()
 	full := make([][][]uint64, len(levels))
 	var mask uint64
@@ -205,6 +223,9 @@ func runSeq(g globalSpec, ops []op) [][]dobs {
 			r = log.SetLevel(c, zapcore.Level(o.Level))
 		case "EnableDebug":
 			r = log.EnableDebug(c)
+		case "Global":
+			logs.install(globalSpec{Level: o.Level, Fields: o.Fields})
+			r = context.TODO()
 		default: // Derive: a context derived for an unrelated reason
 			if i%2 == 0 {
 				r = context.WithValue(c, otherKey{i}, i)
@@ -258,6 +279,8 @@ func gOp(o op) string {
 		return "OSetLevel " + c + " " + gal.Z(int64(o.Level))
 	case "EnableDebug":
 		return "OEnableDebug " + c
+	case "Global":
+		return "OSetGlobal (Base " + gal.Z(int64(o.Level)) + " " + gFields(o.Fields) + ")"
 	default:
 		return "ODerive " + c
 	}
@@ -293,6 +316,7 @@ func emit(out *gal.Out, kind string, g globalSpec, ops []op) {
 type gen struct {
 	r    *rand.Rand
 	next uint64
+	swap bool // also replace the global logger now and then (outside the property's operation list)
 }
 
 func (g *gen) fields(max int) []uint64 {
@@ -361,6 +385,10 @@ func (g *gen) randomOps(n int, nearmiss bool) []op {
 				c = []int{prev.Ctx, nctx - 1}[g.r.IntN(2)]
 				x = 20 + g.r.IntN(50)
 			}
+		}
+		if g.swap && g.r.IntN(8) == 0 {
+			ops = append(ops, op{Op: "Global", Ctx: 0, Level: g.level(), Fields: g.fields(2)})
+			continue
 		}
 		switch {
 		case x < 10:
@@ -467,7 +495,7 @@ func stress(out *gal.Out, g *gen, n int) {
 func main() {
 	seed := flag.Uint64("seed", 1, "seed")
 	outp := flag.String("out", "c18", "output prefix")
-	mode := flag.String("mode", "random", "corpus|random|nearmiss|replay|stress")
+	mode := flag.String("mode", "random", "corpus|random|nearmiss|globalswap|replay|stress")
 	n := flag.Int("n", 100, "number of cases")
 	maxLen := flag.Int("maxlen", 25, "maximal sequence length")
 	in := flag.String("in", "", "replay: file with one {glob, ops} JSON object per line")
@@ -500,6 +528,7 @@ func main() {
 	case "stress":
 		stress(out, g, *n)
 	default:
+		g.swap = *mode == "globalswap"
 		for i := 0; i < *n; i++ {
 			g.next = 1
 			gs := g.global()
